@@ -297,6 +297,12 @@ def is_skip_filter(prog, consumer, body=None, site=None):
                 src = paths.access_path(hb, rt[2][0])
                 if src is not None and src[0] == ("arg", 1, hb.names.get(1)):
                     return is_skip_filter(prog, rt)
+    if consumer is not None and consumer[0] == "call" and not is_call(consumer, "core::iter::traits::iterator::Iterator::filter", nargs=2):
+        ln_ = consumer[1]["name"].split("::")[-1]
+        if not ("iterator::Iterator" in consumer[1].get("decl", "") or "iter::" in consumer[1]["name"] or ln_ in ("collect", "extend", "for_each", "map", "fold")):
+            # handed to something that is not an iterator adapter (boxed, stored in a private struct, passed to a private function): the selection
+            # happens out of this rule's sight
+            return None, "the members are handed to %s; the selection is not visible here" % consumer[1]["name"]
     if consumer is None or not is_call(consumer, "core::iter::traits::iterator::Iterator::filter", nargs=2):
         return False, "iterator is consumed by %s, not by filter(!should_skip)" % (consumer[1]["name"] if consumer else "<nothing / a loop>")
     cl, ups = mir.closure_of(consumer[2][1])
@@ -321,7 +327,7 @@ def is_skip_filter(prog, consumer, body=None, site=None):
     try:
         r = absint.run(pb, 0, env, call=h, prog=prog, inline=True)
     except absint.Unrecognised as e:
-        return False, "filter predicate cannot be interpreted: %s" % e
+        return None, "filter predicate cannot be interpreted: %s" % e
     if not seen:
         return False, "filter predicate never asks should_skip"
     if any(getattr(x, "name", None) != "item.attrs" for x in seen):
